@@ -204,6 +204,16 @@ impl<Fut: Future> FuturesOrderedBounded<Fut> {
     }
 }
 
+#[cfg(futures_buffered_verif)]
+impl<Fut: Future> FuturesOrderedBounded<Fut> {
+    /// Verification hook: start both position counters of an empty queue at `v`.
+    pub fn verif_seed_indices(&mut self, v: usize) {
+        assert!(self.is_empty());
+        self.next_incoming_index = Wrapping(v);
+        self.next_outgoing_index = Wrapping(v);
+    }
+}
+
 impl<Fut: Future> Stream for FuturesOrderedBounded<Fut> {
     type Item = Fut::Output;
 
